@@ -87,6 +87,17 @@ def cases(tier, seed):
                 yc = progs.L(y[1] + "@cw")
                 exprs += [["|", x, yc], ["&", x, yc]]
             specs.append({"id": "e:%s,%s" % (x[1], y[1]), "exprs": exprs, "cost": 20})
+    # (w) warm operands: the same leaves as objects with a past (built elsewhere, queried, moved back)
+    wn = ["sqA", "sqB", "triA", "bar", "dia", "L"] if tier == "quick" else al.P_ORDER
+    for i, a in enumerate(wn):
+        for b in wn:
+            if a == b:
+                continue
+            x, y = ["WL", "P.%s#int" % a], ["WL", "P.%s#frac" % b if tier == "thorough" else "P.%s#int" % b]
+            if tier == "thorough":
+                y = ["WL", "P.%s#int" % b]
+            exprs = [[o, x, y] for o in progs.OPS4] + [["&", x, ["L", "P.%s#int@cw" % b]], ["|", ["L", "P.%s#int" % a], y]]
+            specs.append({"id": "w:%s,%s" % (a, b), "exprs": exprs})
     # (g) rings nested through islands
     specs.append({"id": "g:nested", "exprs": progs.nested_exprs()})
     specs.append({"id": "g:nested-laws", "exprs": progs.nested_laws(), "deg": True})
